@@ -7,6 +7,8 @@ use lexical_util::iterator::{AsBytes, Iter};
 mod comp_write;
 #[path = "comp_parse.rs"]
 pub mod comp_parse;
+#[path = "comp_opts.rs"]
+mod comp_opts;
 
 fn hex128(s: &str) -> u128 {
     u128::from_str_radix(s.trim_start_matches("0x"), 16).unwrap()
@@ -35,6 +37,8 @@ pub fn run_comp(op: &str, a: &[&str]) -> String {
             crate::dispatch_alg(crate::parse_fmt(a[1]), &v).unwrap_or_else(|| "nofmt".to_string())
         },
         "td" | "gr" => comp_write::run(op, a),
+        // po / wo: option validators (comp_opts.rs)
+        "po" | "wo" => comp_opts::run(op, a),
         // fs TY HEX -> `core::str::FromStr` of Rust itself: `ok <bits|value> -` | `err FromStr -` (C12: STANDARD vs FromStr)
         "fs" => op_fs(a[0], &crate::unhex(a[1])),
         _ => "badop".into(),
